@@ -4,8 +4,9 @@ CONSTANTS
   ClearOnGrow = TRUE
   ResetVarsOnFree = TRUE
   MaxCtx = 1
-  MaxBi = 10
+  MaxBi = 8
   MaxVars = 1
+  Progs = {1, 2}
   GrowSteps = 1
   Texts <- FewTexts
   Outcomes <- OutcomesMC
